@@ -36,7 +36,7 @@ RULE = ('program trees of depth 0..4 (balanced and unbalanced, repetition counts
         'partial unrolling, neighbour unrolling, rejections); mode auto / single / advanced; wrong tuple lengths.  '
         'Half of the programs are built through create_program of Sequence/Repetition templates.  Thorough tier adds '
         'all trees with <= 4 nodes x repetition counts {1,2,3} x limits {1,2,3} and all trees with <= 3 nodes x counts '
-        '{1,2} x every volatile subset x limits.  Plus 15 DETERMINISTIC families (c16_families.py), one per input class '
+        '{1,2} x every volatile subset x limits.  Plus 16 DETERMINISTIC families (c16_families.py), one per input class '
         'the random stream is blind to: a once-played short table next to a repeated one (limits on the boundaries of '
         'every neighbour test); one long piece + one piece of 16..176 samples / not a multiple of 16, at every position, '
         'incl. never-played bad waveforms; X,Y,X / X,Y,Z,Y,X table and waveform patterns; marker levels (negative, '
@@ -49,7 +49,10 @@ RULE = ('program trees of depth 0..4 (balanced and unbalanced, repetition counts
         'float durations a hair beside an integer sample count (inside / outside the 1e-10 tolerance, a piece that rounds to 0); '
         'measurements on a node and its single child; the compiled-twice family and 10 % of the random direct builds '
         'also with VOLATILE counts (property terms read back from the Loop); round 5: a short table extended by a peeled '
-        'iteration of a short repeated neighbour and then by split_one_child (aliasing between neighbour tables, seed C16-8).  '
+        'iteration of a short repeated neighbour and then by split_one_child (aliasing between neighbour tables, seed C16-8); '
+        'round 6: sample rates whose period is not a binary fraction (11/5, 7/4, 23/10, 9/5, 6/5 ...; sample times are rounded '
+        'doubles) with a hold step on EVERY sample index and a marker toggle on every marker sample (seed C16-10); the '
+        'near-integer pieces now carry their exact length into Coq (model and Spec.spec_tol decide the tolerance).  '
         'Non-trivial = accepted program '
         'with more than one table entry or a restructured tree; distinct = canonical JSON of the case.')
 TRUSTED = [
@@ -60,14 +63,15 @@ TRUSTED = [
     'translate/py2gallina_c16.py: the declared observations (python expression -> variable) and the collection of tests in source order; the actions between the tests (what a branch does to the Loop objects) are tied by the correspondence check only',
     'harness: generators, exact float->rational conversion, Gallina printers, run-length encoding, memoised samples; for the "compiled twice" family the tree is read back from the Loop by waveform identity and the volatile counts by the structure of their expression / scope (vprop_of)',
     'translate/py2gallina_c16.py FuncStateTranslator: the schema (which locals are mutable state and their types; Loop observations .repetition_definition = (count, property), _get_used_waveform = class lookup; OrderedDict = association list in insertion order as defined in coq/C16/GenLibParse.v)',
-    'near-integer piece lengths: the exact duration of the waveform object is read from the implementation (input of the model, like the equality classes); whether it is within the 1e-10 tolerance of its nominal sample count is decided by the harness with exact fractions, and then the piece is specified as that many samples',
+    'near-integer piece lengths: the exact duration of the waveform object is read from the implementation (input of the model, like the equality classes); round 6: whether it is within the 1e-10 tolerance of its nominal sample count is decided in Coq (model: waveform_length; specification: Spec.snap / spec_tol, theorem C16_plays_within_tolerance), no longer by the harness',
+    'family step_on_sample: table entry times that are not binary fractions are given to TablePT as exact rational expressions (a Python float would be cut to 15 significant digits on its way through sympy and the step would not lie on the sample)',
     'MappingPT / build_waveform channel mapping and TransformingWaveform(LinearTransformation) are sampled by qupulse; the specification side uses the harness\' own samples (linear combinations computed exactly)',
     'the instrument driver hardware/awgs/tabor.py is not importable offline; its table layout (idle table first, numbers + 1) is re-created by the harness for PlottableProgram',
 ]
 ASSUMPTIONS = [
     'repetition counts >= 0 (count 0 only in directly built trees: create_program drops such repetitions), volatile counts = flag + current value (what an update does is C15), parent indices of the Loop tree are consistent (no prior reverse_inplace)',
     'voltage transformations are affine maps with dyadic coefficients; amplitude > 0',
-    'every leaf defines all assigned channels; C16_plays assumes leaf lengths that are exact integers (lengths within the 1e-10 tolerance of an integer are covered by the correspondence check and the replay oracle only: family near_integer)',
+    'every leaf defines all assigned channels; C16_plays assumes leaf lengths that are exact integers; C16_plays_within_tolerance (round 6) covers every length within the 1e-10 tolerance of its sample count, in exact rational arithmetic (the float evaluation of the deviation inside get_waveform_length is tested: family near_integer)',
 ]
 
 GEN_FILE = os.path.join(vlib.COQ, 'C16', 'Gen_tabor.v')
@@ -1227,7 +1231,11 @@ MANIFEST = {
                   'counts >= 0, exact integer piece lengths, objects of one equality class have equal data (round 5, '
                   'C16_plays_used_channels: on the USED channels only); the code is a nearest integer to '
                   '(v-off+amp)/(2amp)*16383, ties to even, defined exactly in range (C16_code_is_nearest, '
-                  'C16_code_defined_iff_in_range).  (S3, S4) C16_limits: every emitted segment >= 192 and a multiple of 16, '
+                  'C16_code_defined_iff_in_range); round 6, C16_plays_within_tolerance: the same for every table whose piece '
+                  'lengths are within the tolerance of get_waveform_length (float 1e-10, in samples) of their sample counts — '
+                  'the specification spec_tol takes such a piece as that many samples and is undefined for a played piece '
+                  'outside the tolerance (C16_spec_tol_outside_tolerance); the compiler model cannot see the difference '
+                  '(C16_tolerance_invisible).  (S3, S4) C16_limits: every emitted segment >= 192 and a multiple of 16, '
                   'every table <= max_seq_len in both modes, >= min_seq_len in advanced mode (single mode refuted by '
                   'witness = known finding, intended behaviour).  (S5) C16_accepts_or_rejects (round 5, replaces the '
                   'tautological C16_reject): within the two closed fuel bounds the model either emits tables that play the '
@@ -1239,12 +1247,12 @@ MANIFEST = {
                   '_has_single_child_that_can_be_merged / split_one_child and the statement-by-statement bookkeeping of both '
                   'parsers are translated from the current source on every run (translate/py2gallina_c16.py, fail-closed) '
                   'and proved equal to the model (C16_source_*).  PARTIAL: voltage transformations are affine maps only. '
-                  'TESTED ONLY: piece lengths within the 1e-10 tolerance of an integer, binary64 rounding of numpy (dyadic '
-                  'inputs), the actions of the restructuring on the Loop objects.  NOT COVERED: limits of the advanced '
+                  'TESTED ONLY: binary64 rounding of numpy (dyadic inputs; sample TIMES at rates with a non-binary period: '
+                  'family step_on_sample, a step on every sample index), the float evaluation of the length deviation, the actions of the restructuring on the Loop objects.  NOT COVERED: limits of the advanced '
                   'table / of repetition counts, the instrument driver.  Tie to /repo: exact correspondence check '
                   '(segments as uploaded binary, tables, mode, accept/reject, tree left behind) and the specification '
                   'evaluated by Coq on the implementation\'s tables on every case; PlottableProgram as a second player; '
-                  'random stream + 15 deterministic families for input classes the random stream cannot reach.',
+                  'random stream + 16 deterministic families for input classes the random stream cannot reach.',
     'level_note': 'Trusted: Coq kernel, harness, numpy float exactness on dyadic inputs, Waveform equality classes and '
                   'get_sampled (inputs of the model / compared through the spec), the binary layout assumed by the table '
                   'player; volatile counts are a flag + current value (updates are C15); programs beyond the two closed '
